@@ -139,6 +139,7 @@ int run(std::istream& in)
     unsigned nstreams = 1, smult = 0, soff = 0;
 
     std::vector<SlotSpec> pre, post;
+    DetectorStepOutput reused_out;
     bool in_iter = false;
     bool built = false;
     g_iter = -1;
@@ -223,9 +224,10 @@ int run(std::istream& in)
         dump_view(0, cb);
         if (!detmap.empty())
         {
-            DetectorStepOutput o;
-            copy_steps(&o, ss_ref);
-            dump_detout(0, o);
+            // `reused_out` lives across all iterations of the configuration
+            copy_steps(&reused_out, ss_ref);
+            dump_detout(0, reused_out);
+            score_hits(0, reused_out);
             if (ncalo)
             {
                 celeritas::detail::SimpleCaloExecutor exec{
